@@ -168,7 +168,7 @@ class RustSRPAnalyzer(RustBaseAnalyzer):
         start_line = node.start_point[0]
         end_line = node.end_point[0]
         lines = source.split("\n")[start_line : end_line + 1]
-        return sum(1 for line in lines if line.strip() and not line.strip().startswith("//"))
+        return sum(1 for line in _without_block_comment_lines(lines) if not line.startswith("//"))
 
     def _find_declaration_list(self, impl_node: Any) -> Any:
         """Find the declaration_list node in an impl block.
@@ -213,3 +213,20 @@ class RustSRPAnalyzer(RustBaseAnalyzer):
         """
         name = self.extract_identifier_name(func_node)
         return not name.startswith("_")
+
+
+def _without_block_comment_lines(lines: list[str]) -> list[str]:
+    """Strip the lines and drop blank ones and those that lie entirely inside /* ... */ comments."""
+    kept: list[str] = []
+    inside = False
+    for raw in lines:
+        text = raw.strip()
+        if inside:
+            inside = "*/" not in text
+            text = text.split("*/", 1)[1].strip() if not inside else ""
+        if text.startswith("/*"):
+            inside = "*/" not in text
+            text = text.split("*/", 1)[1].strip() if not inside else ""
+        if text:
+            kept.append(text)
+    return kept
